@@ -211,6 +211,9 @@ pub const HEADER_POOL: &[&str] = &[
     "x-amz-meta-a", "x-amz-meta-b", "x-amz-content-sha256", "x-amz-target", "etag", "accept", "content-md5", "range",
     "x-custom", "x-custom-2", "user-agent", "x-amzn-trace-id", "cache-control", "x-a", "my-header1", "my-header2",
     "x-amz-acl", "if-match", "date", "x-custom-source", "x-custom-source-range", "content-length", "content-type", "x_under", "x.dot", "x-a-",
+    // headers that describe the client or the route a request took (what policy condition keys are derived from)
+    "referer", "origin", "x-forwarded-for", "x-forwarded-proto", "x-amz-user-agent", "cookie", "expect", "via", "forwarded", "x-real-ip", "accept-encoding",
+    "if-none-match", "x-amz-source-arn", "x-amz-source-account",
 ];
 
 /// canonical header value: visible bytes, 0x80-0xFF, tabs, single inner spaces; no outer spaces, no space runs
@@ -705,6 +708,14 @@ pub fn principal_spec() -> BoxedStrategy<PrincipalSpec> {
         3 => ("[0-9]{12}", "[a-zA-Z0-9_+=,.@-]{1,16}").prop_map(|(account, name)| PrincipalSpec::User { partition: "aws".into(), account, path: "/".into(), name }),
         2 => ("[0-9]{12}", "[a-zA-Z0-9_+=,.@-]{1,16}", "[a-zA-Z0-9_+=,.@-]{2,16}").prop_map(|(account, role, session)| PrincipalSpec::Role { partition: "aws".into(), account, role, session }),
         1 => Just(PrincipalSpec::Service { name: "lambda".into(), region: None, suffix: "amazonaws.com".into() }),
+        // a regional service principal (its home region may or may not be the region the server validates for)
+        2 => (prop_oneof![Just("lambda"), Just("ec2"), Just("s3"), Just("elasticloadbalancing")], any::<u16>()).prop_map(|(n, x)| {
+            const HOME: &[&str] = &["us-east-1", "us-west-2", "eu-west-1", "cn-north-1", "us-gov-west-1"];
+            PrincipalSpec::Service { name: n.into(), region: Some(HOME[pick_idx(x, HOME.len())].into()), suffix: "amazonaws.com".into() }
+        }),
+        1 => ("[0-9]{12}", "[a-zA-Z0-9_+=,.@-]{2,16}").prop_map(|(account, name)| PrincipalSpec::Federated { account, name }),
+        1 => "[0-9]{12}".prop_map(|account| PrincipalSpec::Root { account }),
+        1 => "[0-9a-f]{64}".prop_map(|id| PrincipalSpec::Canonical { id }),
         1 => ("[0-9]{12}", "[a-z]{1,8}").prop_map(|(account, role)| PrincipalSpec::Two { account, role, service: "ec2".into() }),
     ]
     .boxed()
@@ -748,11 +759,11 @@ pub fn reqs(rich: bool) -> BoxedStrategy<Reqs> {
     if !rich {
         return prop_oneof![
             4 => Just(Reqs::default()),
-            1 => (reqs_names(), reqs_names(), reqs_prefixes(), 0u8..3).prop_map(|(always, if_in_request, prefixes, route)| Reqs { always, if_in_request, prefixes, route }),
+            1 => (reqs_names(), reqs_names(), reqs_prefixes(), 0u8..5).prop_map(|(always, if_in_request, prefixes, route)| Reqs { always, if_in_request, prefixes, route }),
         ]
         .boxed();
     }
-    (reqs_names(), reqs_names(), reqs_prefixes(), 0u8..3)
+    (reqs_names(), reqs_names(), reqs_prefixes(), 0u8..5)
         .prop_map(|(always, if_in_request, prefixes, route)| Reqs { always, if_in_request, prefixes, route })
         .boxed()
 }
